@@ -145,6 +145,16 @@ func typeTestsConsistent(path []*ssa.BasicBlock) bool {
 			return false
 		}
 		outcome[k] = taken
+		// closed world: frame.Frame has unexported methods and exactly two implementations
+		if !taken && typeStr(ta.X.Type()) == "frame.Frame" {
+			other := "*frame.V1Frame"
+			if k.t == other {
+				other = "*frame.V2Frame"
+			}
+			if o, has := outcome[key{ta.X, other}]; has && !o {
+				return false
+			}
+		}
 		if taken {
 			if t, has := trueType[ta.X]; has && t != k.t {
 				return false
